@@ -447,6 +447,17 @@ theorem c20_express_exact (g : Genome ν) (hw : WFG g) (ctx : List Nat) :
     refine ⟨x, hf, hv, (expressed_iff g ctx x).mpr ?_⟩
     rw [hn]; exact h
 
+/-- In every reachable store every gene has an expression state and vice versa (the two dicts have the same
+    keys), so "silenced" is always defined and the `expression is None` branches of `express` / `get_value` are dead. -/
+theorem c20_every_gene_has_expression_state (env : Env ν) (ops : List (Op ν)) (g : Genome ν)
+    (hg : g ∈ (run env Store.empty ops).genomes) (n : Nat) :
+    (findLevel g.expr n).isSome = (findGene g.genes n).isSome := by
+  have hk : KeysEq g := run_keysEq env ops _ (by intro g hg; cases hg) g hg
+  have h1 := @findLevel_isSome_iff g.expr n
+  have h2 := @findGene_isSome_iff ν g.genes n
+  rw [hk] at h1
+  rw [Bool.eq_iff_iff, h1, h2]
+
 /-- the same at the level of the store: what an `express` call observes, and that it leaves the store alone -/
 theorem c20_express_step (env : Env ν) (st : Store ν) (i : Nat) (ctx : List Nat) (g : Genome ν)
     (hi : st.genomes[i]? = some g) : step env st (.express i ctx) = (st, .config (express g ctx)) :=
